@@ -97,6 +97,8 @@ func c07Prelude(after string) string {
 (defmacro mloop (fn (n) (do (tick!) (list 'mloop (+ n 1)))))
 (def cond-loop (fn (n) (cond (< n 0) :never true (do (tick!) ` + after + ` (cond-loop (+ n 1))))))
 (def and-loop (fn (n) (and (tick!) (or false (and-loop (+ n 1))))))
+(def retry-loop (fn (n) (try (do (tick!) (sleep 60000)) (catch e (retry-loop (+ n 1))))))
+(def retry-loop2 (fn (n) (try (tail-loop 0) (catch e (do (tick!) (retry-loop2 (+ n 1)))))))
 )`
 }
 
@@ -121,6 +123,8 @@ var c07Loops = []c07Loop{
 	{"map-literal", "{:a (tail-loop 0)}", false},
 	{"let-binding", "(let (x (tail-loop 0)) x)", false},
 	{"thread-macro", "(-> 0 (tail-loop))", false},
+	{"retry-in-handler", "(retry-loop 0)", true},
+	{"retry-in-handler-loop", "(retry-loop2 0)", false},
 	{"sleep", "(do (tick!) (sleep 60000))", true},
 	{"future-sleep", "(do (tick!) @(future (sleep 60000)))", true},
 	{"future-loop", "(do (tick!) @(future (tail-loop 0)))", true},
@@ -370,7 +374,12 @@ func runC07(c *fw.Ctx) {
 	canary := hx.StartCanary()
 	defer canary.Stop()
 	ks := []int64{1, 2, 3, 10, 100, 1000}
-	nonBlocking := c07Loops[:14]
+	var nonBlocking []c07Loop
+	for _, l := range c07Loops {
+		if !l.blocking {
+			nonBlocking = append(nonBlocking, l)
+		}
+	}
 	// (1) cancel mode: every loop kind x every node kind after the cancelling tick x k, unwrapped
 	idx := 0
 	for _, l := range c07Loops {
@@ -424,6 +433,11 @@ func runC07(c *fw.Ctx) {
 			// a wrapped program may legitimately end with a handler's constant value: not judged for value/error
 			c07RunDeadlineFree(c, canary, fmt.Sprintf("deadline-%d", i), prog, desc, dl)
 		}
+	}
+	// (3b) retry loops whose handler re-enters the try in tail position, under a natural deadline
+	for i := 0; i < c.PerShard(c.Pick(16, 200)); i++ {
+		dl := time.Duration(150+r.Intn(300)) * time.Millisecond
+		c07RunDeadlineFree(c, canary, fmt.Sprintf("deadline-retry-%d", i), gen.Pick(r, []string{"(retry-loop 0)", "(retry-loop2 0)", "(try (retry-loop 0) (catch e :const))"}), "retry", dl)
 	}
 	// (4) blocking builtins under asynchronous cancel
 	blocking := []string{"(sleep 60000)", "@(future (sleep 60000))", "@(future (tail-loop 0))", "(try (sleep 60000) (catch e (sleep 60000)))", "(try @(future (sleep 60000)) (finally (sleep 60000)))", "(map (fn (x) (sleep 60000)) [1 2])", "(swap! (atom 0) (fn (n) (sleep 60000)))"}
